@@ -140,7 +140,7 @@ def crash_enumerate(ctx):
 
 
 PARTS = [
-    Part("kill-restart", prop, strategy=cases, quick=32, thorough=320, shrink_budget=5),
+    Part("kill-restart", prop, strategy=cases, quick=32, thorough=320, shrink_budget=5, collect=True),
     Part("crash-at-launch", prop, enumerate=crash_enumerate),
 ]
 TIMEOUT = {"quick": 900, "thorough": 5400}
